@@ -74,7 +74,7 @@ static std::set<std::pair<int, int>> pred_pairs;   // (job, predecessor op) pair
 static void worker(int T, int tid, int round, uint64_t seed, int passes, std::set<std::pair<int, int>> *pairs) {
     Rng r(seed * 0x9E37 + tid * 7919 + round * 104729 + T);
     // where this thread's allocator places its blocks modulo 32 is part of the history (a third of the threads: as malloc does)
-    { int sel = (tid + round + T) % 3; set_heap_phase(sel == 0 ? 0 : sel == 1 ? 16 : -1); }
+    { int sel = (tid + round + T) % 4; set_heap_phase(sel == 0 ? 0 : sel == 1 ? 16 : sel == 2 ? 100 : -1); }
     IntPolynomial *ip = new_IntPolynomial(N); TorusPolynomial *tp = new_TorusPolynomial(N), *res = new_TorusPolynomial(N);
     LweSample *scratch[2] = {new_LweSample(keys[0].gb->in_out_params), new_LweSample(keys[1].gb->in_out_params)};
     std::vector<uint8_t> ob;
@@ -173,9 +173,9 @@ int main(int argc, char **argv) {
     VH_OP("reference:%s", cfg.c_str());
     for (auto &j: jobs) run_job(j, j.ref);
     // the placement of temporaries must not matter: same thread, every block at 0 and then at 16 modulo 32
-    for (int ph: {0, 16}) { set_heap_phase(ph); std::vector<uint8_t> ob;
+    for (int ph: {0, 16, 100}) { set_heap_phase(ph); std::vector<uint8_t> ob;
         for (auto &j: jobs) { VH_OP("heap-phase-%d:%s", ph, j.name().c_str()); run_job(j, ob); comparisons++;
-            if (ob != j.ref) { mismatches++; size_t d = 0; while (d < ob.size() && d < j.ref.size() && ob[d] == j.ref[d]) d++; char hb[48]; snprintf(hb, sizeof hb, "heap blocks at %d mod 32", ph); mism.push_back({j.name(), hb, 0, 0, 0, (int) d}); } } }
+            if (ob != j.ref) { mismatches++; size_t d = 0; while (d < ob.size() && d < j.ref.size() && ob[d] == j.ref[d]) d++; char hb[48]; snprintf(hb, sizeof hb, ph == 100 ? "heap blocks spread over distant regions" : "heap blocks at %d mod 32", ph); mism.push_back({j.name(), hb, 0, 0, 0, (int) d}); } } }
     set_heap_phase(-1);
     // the same job after different prefixes on one thread
     { std::set<std::pair<int, int>> pp; worker(0, 0, 0, seed, 2, &pp); for (auto &p: pp) pred_pairs.insert(p); }
